@@ -11,7 +11,7 @@ def layouts_check(ctx):
     """The Python twin of KafkaCompat.divs over the schemas printed by the harness: every divergence
     between the dissector's layout and the wire format must be a recorded finding."""
     rows = K.schemas(ctx)
-    unlisted = []
+    unlisted, names = [], []
     ncompat = 0
     for (api, ver, dirn), r in sorted(rows.items()):
         ds = K.divergences(r["spec"], r["impl"])
@@ -21,8 +21,10 @@ def layouts_check(ctx):
         for path, kind in ds:
             if K.known_layout(r["name"], ver, dirn, path) is None:
                 unlisted.append((r["name"], ver, dirn, path, kind, r["implT"]))
+        for sp, ip in K.name_mismatches(r["spec"], r["impl"]):
+            names.append((r["name"], ver, dirn, sp, ip, r["implT"]))
     ctx.cov["layouts"] = {"grid": len(rows), "compatible": ncompat, "divergent": len(rows) - ncompat}
-    return unlisted
+    return unlisted, names
 
 
 def known_coq_list():
@@ -118,7 +120,13 @@ def run(ctx):
                 "exchanges": [(e["name"], e["ver"], e["corr"]) for e in mid["exch"]]})
 
     # ---- layout tables (translation validation, second implementation of the comparison)
-    unlisted = layouts_check(ctx)
+    unlisted, names = layouts_check(ctx)
+    for api, ver, dirn, sp, ip, implT in names[:4]:
+        conv = next((c for c in convs if c["name"] == "%s-v%d-0" % (api, ver)), None)
+        ctx.violation({"kind": "layout-names", "api": api, "ver": ver, "dir": dirn, "wire_field": sp, "reported_as": ip, "impl_struct": implT,
+                       "what": "%s v%d %s: the value of %s is reported under the name %s" % (api, ver, dirn, sp, ip),
+                       "client": conv["client"] if conv else None, "server": conv["server"] if conv else None,
+                       "how": "vh-kafka schemas (field names at aligned wire positions); run the conversation to see the value under the wrong name"})
     for u in unlisted[:5]:
         ctx.broken.append("layout: %s v%d %s diverges from the wire format at %s (%s, struct %s) and is not a recorded finding" % u)
     check_known_file(ctx)
@@ -172,6 +180,12 @@ def replay(ctx, path):
             print("still failing:", f["replay"]["what"], "(known)" if f["class"] else "")
         unexplained = [f for f in fails if f["class"] is None]
         return 1 if unexplained else 0
+    if r.get("kind") == "layout-names":
+        rows = K.schemas(ctx)
+        row = rows.get(({"Produce": 0, "Fetch": 1, "ListOffsets": 2, "Metadata": 3, "ApiVersions": 18, "CreateTopics": 19, "DeleteTopics": 20}[r["api"]], r["ver"], r["dir"]))
+        bad = K.name_mismatches(row["spec"], row["impl"]) if row else []
+        print("what failed:", r["what"]); print("name mismatches now:", bad)
+        return 1 if bad else 0
     if r.get("kind") == "raw":
         res = K.replay_raw(ctx, r)
         return 1 if K.abnormal(res) else 0
